@@ -523,4 +523,11 @@ def _pickle_components(rep, ob, tname):
 
 def _mentions_caption(res, e):
     t = res.term(e)
-    return all(x == ("field", "_unknown_unit_caption") or x == ("const", None) for x in alternatives(t))
+
+    def ok(x):
+        if x == ("field", "_unknown_unit_caption") or x == ("const", None):
+            return True
+        # `caption or None`
+        return x[0] == "op" and x[1] == "Or" and all(ok(y) for y in x[2]) and any(y == ("field", "_unknown_unit_caption") for y in x[2])
+
+    return all(ok(x) for x in alternatives(t))
